@@ -5,7 +5,7 @@
    variables lua_from_lines / lua_to_lines): what the theorems need from the lexer stack is stated as
    explicit hypotheses (sanity re-lex succeeds, the echo writer's last chunk is not empty, echo_stable). *)
 From PV Require Import Base.Prelude Model.P8File Spec.P8Format Spec.P8FileSpec
-  Proofs.P8FileWrite Proofs.P8FileRoundtrip Proofs.P8FileRewrite
+  Proofs.P8FileWrite Proofs.P8FileRoundtrip Proofs.P8FileRewrite Instances.HoldsC03 Proofs.P8FileShortSpec Generated.K_p8file
   Generated.T_lexer Model.Lexer Model.EchoWriter Proofs.LexerChunk Proofs.EchoStable Proofs.P8FileLua Spec.LuaLex Proofs.P8FileLuaDialect.
 
 Section C03.
@@ -53,7 +53,67 @@ Theorem C03_rewrite_identical : forall (c : cart lua) l0 l',
   write_p8 lua lua_from_lines lua_to_lines (norm_cart lua c l') = write_p8 lua lua_from_lines lua_to_lines c.
 Proof. exact (p8_rewrite lua lua_from_lines lua_to_lines lua_empty). Qed.
 
+(* Short sections.  Newer PICO-8 versions leave out the empty tail of a data section.  For every cart whose data
+   regions stop early at a row boundary (wf_short: gfx / label k <= 128 rows of 64 bytes, gff <= 256 and map <= 4096
+   bytes, music k <= 64 patterns; sfx whole) the file that spells out just those rows (file_lines: the section of a
+   region of k rows has k lines) is what the writer produces for it, and READING that file gives every region at
+   its full length: the bytes of the lines present followed by the empty default - zeros for gfx, label, gff and
+   map, the silent pattern 41 42 43 44 for every music pattern left out.  (C03_roundtrip is the case of whole
+   regions, where nothing is appended.) *)
+Theorem C03_short_sections_padded : forall (c : cart lua) l0,
+  wf_short lua lua_to_lines c ->
+  lua_from_lines (lua_to_lines (c_lua c)) = Ok l0 ->
+  ended_flag (lua_to_lines (c_lua c)) = ends_with_nl (code_text lua lua_to_lines c) ->
+  code_in_format (code_text lua lua_to_lines c) = true ->
+  exists file, write_p8 lua lua_from_lines lua_to_lines c = Ok file /\
+    file = concat (file_lines lua lua_to_lines c) /\
+    read_p8 lua lua_from_lines lua_empty file =
+      (l' <- lua_from_lines (code_lines lua lua_to_lines c) ;; Ok (pad_cart lua (norm_cart lua c l'))) /\
+    forall l', let c' := pad_cart lua (norm_cart lua c l') in
+      c_version c' = c_version c /\ c_lua c' = l' /\ c_sfx c' = c_sfx c /\
+      c_gfx c' = c_gfx c ++ repeat 0 (Z.to_nat 8192 - length (c_gfx c)) /\ length (c_gfx c') = Z.to_nat 8192 /\
+      c_gff c' = c_gff c ++ repeat 0 (256 - length (c_gff c)) /\ length (c_gff c') = 256%nat /\
+      c_map c' = c_map c ++ repeat 0 (Z.to_nat 4096 - length (c_map c)) /\ length (c_map c') = Z.to_nat 4096 /\
+      c_music c' = music_norm (c_music c) ++ skipn (length (c_music c)) (concat (repeat [65; 66; 67; 68] 64)) /\
+      length (c_music c') = 256%nat /\
+      c_label c' = match c_label c with
+                   | Some d => Some (d ++ repeat 0 (Z.to_nat 8192 - length d))
+                   | None => None
+                   end /\
+      match c_label c' with Some d => length d = Z.to_nat 8192 | None => True end.
+Proof.
+  intros c l0 W Hs He Hf.
+  destruct (p8_roundtrip_short lua lua_from_lines lua_to_lines lua_empty c l0 W Hs He Hf) as (f & A & B & C).
+  exists f. split; [exact A|]. split; [exact B|]. split; [exact C|].
+  intros l'. exact (pad_cart_facts lua lua_to_lines c l' W).
+Qed.
+
+(* ... and that reading is the cart the file DENOTES by the reference semantics of the format (Spec/P8Format.v "short
+   sections", Spec/P8FileSpec.v denoted_p8cart): the instance predicate holds_C03_short - extracted and evaluated by
+   the check on what the real from_file returns for files with short sections - holds of the model's reader, for any
+   code text the Lua object echoes. *)
+Theorem C03_short_holds : forall (c : cart lua) l' code,
+  wf_short lua lua_to_lines c ->
+  holds_C03_short (p8cart_of lua c code) false
+                  (p8cart_of lua (pad_cart lua (norm_cart lua c l')) (supply_nl code)) = true.
+Proof. exact (short_holds lua lua_to_lines). Qed.
+
+(* every well-formed cart is such a cart (so the theorem above contains C03_roundtrip's reading clause) *)
+Theorem C03_whole_is_short : forall (c : cart lua), wf_cart lua lua_to_lines c -> wf_short lua lua_to_lines c.
+Proof. exact (wf_cart_short lua lua_to_lines). Qed.
+
 End C03.
+
+(* the default contents the code fills in (regenerated from the running code on every run: <Section>.empty()._data)
+   are the empty defaults of the format description *)
+Theorem C03_fill_defaults_are_the_formats :
+  p8_pad_sections = [(0, repeat 0 (Z.to_nat 8192)); (2, repeat 0 (Z.to_nat 256)); (1, repeat 0 (Z.to_nat 4096));
+                     (4, spec_default_sfx); (3, spec_default_music); (6, repeat 0 (Z.to_nat 8192))].
+Proof. exact spec_defaults_are_code_defaults. Qed.
+Print Assumptions C03_fill_defaults_are_the_formats.
+Print Assumptions C03_short_holds.
+Print Assumptions C03_short_sections_padded.
+Print Assumptions C03_whole_is_short.
 Print Assumptions C03_roundtrip.
 Print Assumptions C03_ended_flag.
 Print Assumptions C03_rewrite_identical.
@@ -139,3 +199,47 @@ Example C03_nonvacuous :
   ended_flag (c_lua c) = ends_with_nl (code_text _ (fun l => l) c) /\
   match write_p8_of_chunks c with Ok f => match read_p8_chunks f with Ok c' => c_version c' =? 41 | Err _ => false end | Err _ => false end = true.
 Proof. vm_compute. repeat split; reflexivity. Qed.
+
+(* non-vacuity of C03_short_sections_padded: (1) a cart with a two-row gfx region, a one-pattern music region, a
+   one-row label, no gff and map bytes at all meets every hypothesis (identity lexer), its file has a two-line
+   __gfx__ and a one-line __music__ section, and reading it gives whole regions; (2) a file the way PICO-8 writes it
+   (no blank lines, sections left out altogether) reads to whole regions: the two rows, then zeros; the one pattern
+   (loop-start flag in bit 7 of its first byte), then 41 42 43 44 ... *)
+Definition ex_short : cart (list (list Z)) :=
+  {| c_version := 41; c_lua := [[120; 61; 49; 10]];
+     c_gfx := repeat 18 64 ++ repeat 52 64; c_label := Some (repeat 255 64);
+     c_gff := []; c_map := []; c_sfx := repeat 9 4352; c_music := [129; 2; 3; 68] |}.
+Definition ex_short_file : list Z :=
+  unBS "pico-8 cartridge // http://www.pico-8.com"%bs ++ [10] ++ unBS "version 41"%bs ++ [10] ++ unBS "__lua__"%bs ++ [10] ++ unBS "x=1"%bs ++ [10] ++
+  unBS "__gfx__"%bs ++ [10] ++ repeat 49 128 ++ [10] ++ repeat 50 128 ++ [10] ++
+  unBS "__music__"%bs ++ [10] ++ unBS "01 01020344"%bs ++ [10].
+Example C03_short_nonvacuous :
+  wf_short _ (fun l => l) ex_short /\
+  code_in_format (code_text _ (fun l => l) ex_short) = true /\
+  ended_flag (c_lua ex_short) = ends_with_nl (code_text _ (fun l => l) ex_short) /\
+  match write_p8_of_chunks ex_short with
+  | Ok f => match read_p8_chunks f with
+            | Ok c' => (zlen (c_gfx c') =? 8192) && zlist_eqb (firstn 130 (c_gfx c')) (c_gfx ex_short ++ [0; 0]) &&
+                       zlist_eqb (firstn 12 (c_music c')) [129; 2; 3; 68; 65; 66; 67; 68; 65; 66; 67; 68] &&
+                       (zlen (c_music c') =? 256) && (zlen (c_map c') =? 4096) && (zlen (c_gff c') =? 256) &&
+                       match c_label c' with Some d => zlen d =? 8192 | None => false end
+            | Err _ => false
+            end
+  | Err _ => false
+  end = true /\
+  match read_p8_chunks ex_short_file with
+  | Ok c' => (zlen (c_gfx c') =? 8192) && zlist_eqb (firstn 130 (c_gfx c')) (repeat 17 64 ++ repeat 34 64 ++ [0; 0]) &&
+             zlist_eqb (c_music c') ([129; 2; 3; 68] ++ concat (repeat [65; 66; 67; 68] 63)) &&
+             zlist_eqb (c_map c') (repeat 0 (Z.to_nat 4096)) && (zlen (c_sfx c') =? 4352) &&
+             match c_label c' with None => true | Some _ => false end
+  | Err _ => false
+  end = true.
+Proof.
+  split; [|vm_compute; repeat split; reflexivity].
+  unfold wf_short, ex_short. cbn [c_version c_lua c_gfx c_label c_gff c_map c_sfx c_music].
+  repeat split; try (apply all_bytes_Forall; vm_compute; reflexivity); try (cbn; lia).
+  - exists 2%nat. split; [reflexivity | lia].
+  - exists 1%nat. split; [reflexivity | lia].
+  - exists 1%nat. split; [reflexivity | lia].
+  - repeat constructor; unfold byte; lia.
+Qed.
